@@ -16,7 +16,7 @@ ASSUMPTIONS = [
     "timeouts/intervals from a grid of small integers",
 ]
 BOUNDS = {
-    "quick": "open-handshake timeout T in {1,2}: peer handshake at every grid instant in [0, T+1] or never, both roles; close-handshake timeout in {1,2} x server-drop timeout in {1,2}: peer reply and TCP drop at every grid instant, both roles; peer-initiated close x echoCloseCodeReason on/off x (close, drop) timeouts {(1,3),(2,2)}: server TCP drop at every grid instant or never; auto-ping interval in {1,2} x timeout in {1,2} x restart-on-traffic on/off: 3 rounds with 6 peer reactions per round placed on the grid; every leftover timer fired after close",
+    "quick": "open-handshake timeout T in {1,2}: peer handshake at every grid instant in [0, T+1] or never, both roles; close-handshake timeout in {1,2} x server-drop timeout in {1,2}: peer reply and TCP drop at every grid instant, both roles; peer-initiated close x echoCloseCodeReason on/off x (close, drop) timeouts {(1,3),(2,2)}: server TCP drop at every grid instant or never; auto-ping interval in {1,2} x timeout in {1,2} x restart-on-traffic on/off: 3 rounds with 6 peer reactions per round placed on the grid; every leftover timer fired after close; non-final fragments as traffic; client behind an HTTP proxy (CONNECT answered, target silent); ping timer racing an in-time closing handshake (race/ units); asyncio adapter on a virtual-time loop for all four timer kinds (aio/ units)",
     "thorough": "T in {1,2,3,5}, 4 auto-ping rounds, intervals/timeouts in {1,2,3}",
 }
 EXPECT_COVERS = ["peerclose:server", "peerclose:client-intime", "peerclose:client-late", "open:intime", "open:late", "close:reply-intime", "close:reply-late", "drop:intime", "drop:late", "ping:pong", "ping:silent", "ping:data", "ping:latepong", "ping:fragment", "open:proxy", "race:ping-vs-close"]
